@@ -29,6 +29,7 @@ from vlib.val import line, Word
 from translate import state_translate
 
 ID = 'C20'
+PYBASIS_METHODS = ['continuity', 'knot_spans', 'snap']   # basis.py methods re-translated and proved equal to the hand model each run
 RTOL = 1e-9
 ATOL = 1e-11
 RULE = ('tolerances 1e-4..1e-13 (each basis/cloud gets one, all ten are used); bases: orders 1..5 open / non-open / periodic, '
